@@ -1,8 +1,10 @@
 (** Extraction of the C02 checker (same terms as in the theorems) for bulk evaluation. *)
 From Coq Require Import Extraction ExtrOcamlBasic.
-From DL Require Import Lib.Bytes Model.Lexer Model.DenseGen Model.C02Check Generated.C02Tables.
+From DL Require Import Lib.Bytes Model.Lexer Model.DenseGen Model.Precedence Model.C02Check Generated.C02Tables.
 Extraction Language OCaml.
 Definition c02_check := check_case tbl.
 Definition c02_diag := diag_bytes tbl.
-Extraction "c02_model.ml" c02_check c02_diag Build_tcase Build_item MStr MBreak MRaw MNlRaw MMerge MSpace
+Definition c02_pcheck := pcheck_case ptbl.
+Definition c02_pdiag := pdiag_bytes ptbl.
+Extraction "c02_model.ml" c02_check c02_diag c02_pcheck c02_pdiag Build_pcase binops unops EAtom EBin EUn EParen Build_tcase Build_item MStr MBreak MRaw MNlRaw MMerge MSpace
   BConcat BVarargs BMinus BEqual BLongString N.of_nat.
